@@ -439,4 +439,56 @@ theorem parsers_of_norm_eq (s t : List Char) (h : norm s = norm t) :
   have h3 : kilobytes s = kilobytes t := by simp only [kilobytes, h, h2]
   exact ⟨by simp only [cpuUnits, h], h2, h3, by simp only [megabytes, h3]⟩
 
+/-! ### `to_seconds` -/
+
+/-- `to_seconds("<digits><unit>")` for a unit of the time table, in either case, with trailing white
+    space. -/
+theorem toSeconds_dec_unit (ds w : List Char) (u U : Char) (k : Nat) (hne : ds ≠ [])
+    (hd : ∀ c ∈ ds, isDecimal c = true) (hu : upperC u = [U]) (hU : isPySpace U = false)
+    (hk : timeScaleOf U = some k)
+    (hw : ∀ x ∈ w, upperC x = [x] ∧ isPySpace x = true) (hlim : WithinLimit ds.length) :
+    toSeconds (ds ++ [u] ++ w) = .ok ((decVal ds 0 : Nat) * (k : Int)) := by
+  unfold toSeconds
+  rw [norm_dec_suffix ds w u U hne hd hu hU hw]
+  simp only [List.reverse_append, List.reverse_cons, List.reverse_nil, List.nil_append,
+    List.cons_append, hk, List.reverse_reverse]
+  rw [pyInt_dec ds hne hd hlim]; rfl
+
+/-- `to_seconds` depends on its argument only through `norm` (so it is insensitive to case). -/
+theorem toSeconds_of_norm_eq (s t : List Char) (h : norm s = norm t) : toSeconds s = toSeconds t := by
+  simp only [toSeconds, h]
+
+/-- The time table as the property reads it: seconds, minutes, hours, days. -/
+theorem timeScale_values :
+    timeScaleOf 'S' = some 1 ∧ timeScaleOf 'M' = some 60 ∧ timeScaleOf 'H' = some 3600 ∧
+    timeScaleOf 'D' = some 86400 := by decide
+
+/-- `to_seconds(str(n) + unit)` for every natural `n` (within the interpreter's digit limit) and every
+    unit letter in either case: `n` seconds, `60 n`, `3600 n`, `86400 n`. -/
+theorem toSeconds_nat (n : Nat) (hlim : WithinLimit (Nat.toDigits 10 n).length) :
+    (∀ u ∈ ['s', 'S'], toSeconds (Nat.toDigits 10 n ++ [u]) = .ok (n : Int)) ∧
+    (∀ u ∈ ['m', 'M'], toSeconds (Nat.toDigits 10 n ++ [u]) = .ok ((n : Int) * 60)) ∧
+    (∀ u ∈ ['h', 'H'], toSeconds (Nat.toDigits 10 n ++ [u]) = .ok ((n : Int) * 3600)) ∧
+    (∀ u ∈ ['d', 'D'], toSeconds (Nat.toDigits 10 n ++ [u]) = .ok ((n : Int) * 86400)) := by
+  have key : ∀ (u U : Char) (k : Nat), upperC u = [U] → isPySpace U = false → timeScaleOf U = some k →
+      toSeconds (Nat.toDigits 10 n ++ [u]) = .ok ((n : Int) * (k : Int)) := by
+    intro u U k hu hU hk
+    have := toSeconds_dec_unit (Nat.toDigits 10 n) [] u U k Nat.toDigits_ne_nil (toDigits_dec n) hu hU hk
+      (by simp) hlim
+    simpa [decVal_toDigits] using this
+  obtain ⟨hS, hM, hH, hD⟩ := timeScale_values
+  refine ⟨?_, ?_, ?_, ?_⟩ <;> intro u hu <;> simp only [List.mem_cons, List.not_mem_nil, or_false] at hu
+  · rcases hu with rfl | rfl
+    · simpa using key 's' 'S' 1 (by decide) (by decide) hS
+    · simpa using key 'S' 'S' 1 (by decide) (by decide) hS
+  · rcases hu with rfl | rfl
+    · simpa using key 'm' 'M' 60 (by decide) (by decide) hM
+    · simpa using key 'M' 'M' 60 (by decide) (by decide) hM
+  · rcases hu with rfl | rfl
+    · simpa using key 'h' 'H' 3600 (by decide) (by decide) hH
+    · simpa using key 'H' 'H' 3600 (by decide) (by decide) hH
+  · rcases hu with rfl | rfl
+    · simpa using key 'd' 'D' 86400 (by decide) (by decide) hD
+    · simpa using key 'D' 'D' 86400 (by decide) (by decide) hD
+
 end TmVerif.Units
